@@ -544,9 +544,11 @@ package internals
 //@   ensures[C14] result != nil ==> dptag(result) == tag
 //@   ensures !istype(result, DpFactory)
 
+//@ specfun anydperr(Iface) Iface
 //@ func TryNewAnyDataProvider(val)
 //@   trusted_posts
 //@   pure
+//@   names result1 == anydperr(val)
 //@   ensures[C10,C14] plain_data_gets_no_source_tag: !implements(val, DataProvider) ==> dptag(result0) == nil
 //@   ensures[C14] providers_pass_through: implements(val, DataProvider) ==> result0 == val && result1 == nil
 //@   ensures[C06] result1 == nil ==> result0 != nil
